@@ -1,0 +1,77 @@
+// Copyright 2025 The Go MCP SDK Authors. All rights reserved.
+// Use of this source code is governed by an MIT-style
+// license that can be found in the LICENSE file.
+
+//go:build verif
+
+// Contracts for the verification framework in /verif (comment-only; see /verif/DESIGN.md).
+// This file declares nothing and is compiled only with -tags verif.
+
+package jsonrpc2
+
+// ---------------------------------------------------------------------------------------------
+// The connection monitor (C01-C05): all mutable connection state lives in c.state and is touched only inside the
+// function literals handed to updateInFlight. Each literal is an action: it is verified together with the epilogue
+// of updateInFlight, assuming the invariant below at entry and proving the invariant and the transition clauses
+// at exit. They then hold under every interleaving of any number of goroutines.
+// ---------------------------------------------------------------------------------------------
+
+// The error sentinels are non-nil (established by the package initializer, never reassigned).
+//@ global-invariant ErrUnknown != nil
+//@ global-invariant ErrServerClosing != nil
+//@ global-invariant ErrClientClosing != nil
+//@ global-invariant ErrNotHandled != nil
+//@ global-invariant ErrMethodNotFound != nil
+//@ global-invariant ErrInvalidRequest != nil
+//@ global-invariant ErrInternal != nil
+//@ global-invariant ErrRejected != nil
+//@ func init [C01, C02, C04, C05]
+
+//@ pred idle(s *inFlightState) := len(s.outgoingCalls) == 0 && s.outgoingNotifications == 0 && s.incoming == 0 && !s.handlerRunning
+//@ pred shutting(s *inFlightState) := s.connClosing || s.readErr != nil || s.writeErr != nil
+
+//@ monitor stateMu via (*Connection).updateInFlight [C01, C02, C03, C04, C05]
+//@   state s := &c.state
+//@   closeonly Connection.done, AsyncCall.ready, releaser.ch
+//@   protects fields(Connection.state), fields(Connection.done), fields(AsyncCall.response), fields(AsyncCall.id), fields(AsyncCall.ready), maps("map[ID]*AsyncCall"), maps("map[ID]*incomingRequest"), allElems("*incomingRequest"), chanState
+//@   assume c.done != nil
+// in-flight counters stay far below the 64-bit range (they count live goroutines and messages)
+//@   assume s.incoming < 4611686018427387904 && s.outgoingNotifications < 4611686018427387904
+//@   invariant @K1-pending-calls-are-open forall id ID :: {inDom(s.outgoingCalls, id)} id in s.outgoingCalls ==>
+//@        rawGet(s.outgoingCalls, id) != nil && rawGet(s.outgoingCalls, id).id == id && !closed(rawGet(s.outgoingCalls, id).ready) && rawGet(s.outgoingCalls, id).ready != nil && rawGet(s.outgoingCalls, id).ready != c.done
+//@   invariant @K1b-pending-calls-have-their-own-channel forall id ID, id2 ID :: {inDom(s.outgoingCalls, id), inDom(s.outgoingCalls, id2)}
+//@        id in s.outgoingCalls && id2 in s.outgoingCalls && id != id2 ==> rawGet(s.outgoingCalls, id).ready != rawGet(s.outgoingCalls, id2).ready && rawGet(s.outgoingCalls, id) != rawGet(s.outgoingCalls, id2)
+//@   invariant @K3-counters-nonnegative s.incoming >= 0 && s.outgoingNotifications >= 0
+//@   invariant @K4-done-means-finished closed(c.done) ==> idle(s) && shutting(s) && !s.reading && s.closer == nil
+//@   invariant @K6-dispatcher-owns-queue !s.handlerRunning ==> len(s.handlerQueue) == 0
+//@   invariant @K7-idle-shutdown-closes idle(s) && shutting(s) ==> s.closer == nil && (!s.reading ==> closed(c.done))
+//@   transition @T1-shutdown-is-monotone (old(s.connClosing) ==> s.connClosing) && (old(s.readErr != nil) ==> s.readErr != nil) && (old(s.writeErr != nil) ==> s.writeErr != nil)
+//@        && (old(s.closer == nil) ==> s.closer == nil) && (old(closed(c.done)) ==> closed(c.done))
+//@   transition @T2-removal-completes forall id ID :: {inDom(s.outgoingCalls, id)} old(id in s.outgoingCalls) && !(id in s.outgoingCalls) ==> closed(old(rawGet(s.outgoingCalls, id)).ready)
+//@   transition @T3-completion-is-final forall ac *AsyncCall :: {closed(ac.ready)} old(closed(ac.ready)) ==> closed(ac.ready) && ac.response == old(ac.response)
+//@   transition @T5-no-admission-during-shutdown old(shutting(s)) ==> (forall id ID :: {inDom(s.outgoingCalls, id)} id in s.outgoingCalls ==> old(id in s.outgoingCalls))
+//@   transition @T9-closer-consumed-only-when-finished old(s.closer != nil) && s.closer == nil ==> idle(s) && shutting(s)
+
+// ---- actions with thread-local preconditions (facts about captured variables the enclosing function owns) ----
+
+// Call registers its freshly allocated call object. Its id was drawn from the connection's atomic counter and the
+// object (and its ready channel) is not yet visible to any other goroutine: assumed (ownership is not machine-checked).
+//@ func (*Connection).Call$1 [C01]
+//@   requires ac != nil && ac.ready != nil && !closed(ac.ready)
+//@   assume !(ac.id in s.outgoingCalls) && ac.ready != c.done
+//@   assume forall id ID :: {inDom(s.outgoingCalls, id)} id in s.outgoingCalls ==> rawGet(s.outgoingCalls, id).ready != ac.ready && rawGet(s.outgoingCalls, id) != ac
+//@   ensures @registered-or-refused (err == nil && (ac.id in s.outgoingCalls) && s.outgoingCalls[ac.id] == ac) || (err != nil && errIs(err, ErrClientClosing))
+//@   ensures @refused-when-shutting-down old(shutting(s)) ==> err != nil
+
+// The reader's exit action records the (non-nil) read error.
+//@ func (*Connection).readIncoming$2 [C01]
+//@   requires err != nil
+
+// A failed write records the (non-nil) write error.
+//@ func (*Connection).write$2 [C05]
+//@   requires err != nil
+
+// Notify's deferred action gives back the slot this very call took in Notify$2 (attempted == true); that the slot is
+// still counted is an ownership fact about this goroutine's own increment: assumed, not machine-checked.
+//@ func (*Connection).Notify$1$1 [C05]
+//@   assume s.outgoingNotifications > 0
